@@ -434,6 +434,24 @@ func (r *run) onLog(e *simapi.LogEntry) {
 		return
 	}
 	revName, ok := r.taskOf[e.TaskID]
+	if ok && pkgObjectKind(e.Key.Kind) && e.Verb == "create" && !e.DryRun && e.Err != nil && kerrors.IsAlreadyExists(e.Err) {
+		who := "uncontrolled-object"
+		if cur := r.obj(e.Key.Kind, e.Key.Name); cur != nil {
+			if _, ckind, cname := controllerOf(cur); ckind != "" {
+				who = "object-of-a-stranger"
+				for _, k := range PkgKinds {
+					if m := w.Store.Peek(simapi.ObjKey{Group: RevGK[k].Group, Kind: RevGK[k].Kind, Name: cname}); m != nil {
+						who = "object-of-another-revision"
+						if rv := w.Store.Peek(simapi.ObjKey{Group: RevGK[k].Group, Kind: RevGK[k].Kind, Name: revName}); rv != nil &&
+							(&unstructured.Unstructured{Object: m}).GetLabels()[pkgv1.LabelParentPackage] != (&unstructured.Unstructured{Object: rv}).GetLabels()[pkgv1.LabelParentPackage] {
+							who = "object-of-another-package"
+						}
+					}
+				}
+			}
+		}
+		w.S.Probe("revision-lost-a-create-race/" + who)
+	}
 	if !ok || !pkgObjectKind(e.Key.Kind) || e.Err != nil {
 		return
 	}
